@@ -183,6 +183,20 @@ def enumerate_cases(tier: str):
                 for newer in ([2, 0, 1, 0, 0, "newer"], [2, 1, 1, 0, 0, "other key"], [2, 0, 1, 0, 2, "other type"]):
                     ops = first + [["send", [2, 0, 1, 0, 0, "older"], None], ["send", [2, 1, 1, 0, 2, "second"], None], ["rx_race", f"2;255;3;0;{wake_t};6\n", newer]] + later
                     yield {"pair": [old, new], "metric": True, "registry": ENUM_REGISTRY, "ops": ops}
+    # the listening task is cancelled while the wake's release is inside its 1st / 2nd / 3rd write; later wakes show what stayed parked
+    for old, new in PAIRS:
+        if old.startswith("1"):
+            continue
+        wakes = [t for t in (22, 32) if t <= INTERNAL_MAX[old] and not (t == 22 and new == "2.2")]
+        for wake_t in wakes:
+            later = [["rx", f"2;255;3;0;{wake_t};6\n"], ["send", [2, 0, 1, 0, 0, "after"], None], ["rx", f"2;255;3;0;{wake_t};7\n"], ["rx", f"2;255;3;0;{wake_t};8\n"]]
+            for nth in (1, 2, 3):
+                ops = [["rx", f"2;255;3;0;{wake_t};4\n"], ["send", [2, 0, 1, 0, 0, "a"], None], ["send", [2, 1, 1, 0, 2, "b"], None], ["send", [2, 0, 1, 0, 2, "c"], None], ["rx_cancel", f"2;255;3;0;{wake_t};5\n", nth]] + later
+                yield {"pair": [old, new], "metric": True, "registry": ENUM_REGISTRY, "ops": ops}
+            # ... and other reacting lines cancelled during their reply (a request answered, a time request)
+            for line in ("2;0;2;0;0;\n", "2;255;3;0;1;\n", "2;255;3;0;6;0\n"):
+                ops = [["rx", "2;0;1;0;0;21\n"], ["send", [2, 1, 1, 0, 2, "b"], None], ["rx_cancel", line, 1], ["rx", line]] + later
+                yield {"pair": [old, new], "metric": True, "registry": ENUM_REGISTRY, "ops": ops}
     # version reports that resolve to no protocol (from the gateway, from a node): refused alike, nothing is re-pinned
     for old, new in PAIRS:
         for text in ("", "garbage", "x.y", "v", "0", "1", "-1"):
@@ -320,7 +334,7 @@ def _run_case(case: dict) -> Outcome:
         objects: dict = {}
         for idx, op in enumerate(case["ops"]):
             where = f"step {idx} {op!r} under {old} vs {new}"
-            if op[0] == "rx_race" and shadow is not None:
+            if op[0] in ("rx_race", "rx_cancel") and shadow is not None:
                 info["skipped"] += 1
                 continue  # (races are compared between versions of the same generation only)
             if op[0] == "rx" and shadow is not None:
@@ -355,6 +369,28 @@ def _run_case(case: dict) -> Outcome:
                     status, value = await receiving
                     if raced[0] != "ok":
                         status, value = raced
+                elif op[0] == "rx_cancel":
+                    # the application stops listening (its task is cancelled) while the line is being handled: its op[2]-th write of the step hangs on the
+                    # link until then (no timing involved: the cancellation comes once that write is seen hanging, or the step is over)
+                    count = [0]
+
+                    def hang(_line: str, count=count, nth=op[2]) -> bool:
+                        count[0] += 1
+                        return count[0] == nth
+
+                    transport.hang_pred = hang
+                    before = len(transport.attempts)
+                    receiving = asyncio.ensure_future(env.rx(gateway, op[1]))
+                    for _ in range(2000):
+                        if receiving.done() or any(failed for _s, _l, failed in transport.attempts[before:]):
+                            break
+                        await asyncio.sleep(0)
+                    transport.hang_pred = None
+                    receiving.cancel()
+                    try:
+                        status, value = await receiving
+                    except asyncio.CancelledError:
+                        status, value = "cancelled", None
                 else:
                     status, value = await env.rx(gateway, op[1])
                 results.append((_describe(status, value), _norm_writes(transport.writes_at(idx)), env.snapshot(gateway.nodes), status, value, _times(transport.writes_at(idx))))
@@ -366,7 +402,7 @@ def _run_case(case: dict) -> Outcome:
                 parts = op[1].split(";")
                 if len(parts) >= 6 and parts[2] == "3" and plain_int(parts[4]):
                     info["itypes"].add(int(parts[4]))
-            kind = "send" if op[0] == "send" else "race" if op[0] == "rx_race" else drive._msgkind(shadow.rx(op[1]).fields if shadow else RefController(old).rx(op[1]).fields)
+            kind = "send" if op[0] == "send" else "race" if op[0] == "rx_race" else "cancel" if op[0] == "rx_cancel" else drive._msgkind(shadow.rx(op[1]).fields if shadow else RefController(old).rx(op[1]).fields)
             if d_old != d_new:
                 return fail(f"outcome-differs:{kind}:{old}->{new}", f"{where}: {old} gives {d_old} ({v_old!r}), {new} gives {d_new} ({v_new!r})")
             if w_old != w_new:
@@ -377,7 +413,7 @@ def _run_case(case: dict) -> Outcome:
             if s_old != s_new:
                 diff = drive._first_diff(s_old, s_new)
                 return fail(f"registry-differs:{kind}:{old}->{new}", f"{where}: at {diff[1]}: {old} has {diff[2]!r}, {new} has {diff[3]!r}")
-            if op[0] == "rx_race":
+            if op[0] in ("rx_race", "rx_cancel"):
                 continue
             if shadow is not None and op[0] == "rx":
                 pred = shadow.rx(op[1])
